@@ -702,7 +702,11 @@ class Engine:
                 return
             if k == 'drop':
                 v = self.eval_place(st, fn, frame, t['place'])
-                st.ev('drop', value=v, ty=t.get('ty'), ln=t.get('ln'), fn=fn)
+                try:
+                    dl = self.loc_of(st, fn, frame, t['place'])
+                except Exception:
+                    dl = None
+                st.ev('drop', value=v, loc=dl, ty=t.get('ty'), ln=t.get('ln'), fn=fn)
                 b = t['target']
                 continue
             if k == 'assert':
